@@ -67,7 +67,7 @@ pub fn set_forced(list: &Value) {
         with(|c| {
             for e in f {
                 let kind = e[0].as_str().unwrap().to_string();
-                let base = *c.branch_counts.get(&kind).unwrap_or(&0);
+                let base = if kind == "final_eq" { 0 } else { *c.branch_counts.get(&kind).unwrap_or(&0) };
                 c.forced.insert((kind, base + e[1].as_u64().unwrap() as u32), e[2].as_bool().unwrap());
             }
         });
